@@ -755,6 +755,14 @@ class Interp:
                     if mm is not None and n2 in mm.assigns:
                         return self.eval(mm.assigns[n2], Env(mm, {}, None))
                     raise Unsupported(f"global {name}: {ex}")
+                if isinstance(v, Opaque):
+                    # an expression the folder keeps as text (e.g. a constructor call at module level): evaluate it
+                    mm = self.repo.modules.get(m2) if isinstance(m2, str) else m2
+                    if mm is not None and n2 in mm.assigns and isinstance(mm.assigns[n2], ast.Call):
+                        try:
+                            return self.eval(mm.assigns[n2], Env(mm, {}, None))
+                        except Unsupported:
+                            pass
                 return self.from_folded(v)
         raise Unsupported(f"name {name}")
 
